@@ -310,4 +310,20 @@ PROPS = {
         trusted_base=COMMON_TRUST + ["serde_json"],
         assumptions=["NumRoundTrip: serde_json::Number -> text -> serde_json::Number is the identity"],
     ),
+
+    "C19": dict(
+        tables=[],
+        determined=True,
+        technique="Lean 4 theorem by mutual structural induction over documents: the model of the json! TT munchers builds the denoted value for every literal (any depth, trailing commas, key styles, duplicates); generated programs compiled against the current tree, each constructed value compared with the model and with the parse of the matching text",
+        level_text=("PARTIAL proof (the macro engine is modelled, not verified). The macro_rules! rules of src/macros.rs are modelled as functions over token trees (rules tried in order, first match fires); C19_macro proves for EVERY document — nested arrays/objects of any depth, optional trailing commas, "
+                    "string/integer/float/boolean/null literals, literal, parenthesized or variable keys, duplicate keys — that the expansion builds exactly the value the text denotes, entries in written order, duplicates preserved; C19_trailing_comma, C19_order_and_duplicates, C19_rejects are corollaries/instances. "
+                    "Tie to the code: each run generates a batch of ~300 documents (thorough: 8 batches incl. nesting depth 24), emits one json! invocation per document into a Rust source file, compiles it AGAINST THE CURRENT TREE, runs it, and compares every constructed value with the model's expansion and with Value::parse_str of the matching JSON text; a batch that stops compiling is a failing replay. "
+                    "Float literals denote an f64: the 'corresponding JSON text' of a float literal is the rendering Value::try_from(f64) gives (lexical, opaque)."),
+        level_note="Trusted: Lean kernel; rustc's macro_rules matcher (modelled by hand: first matching rule, tt/expr/literal fragments); lexical's float formatting (opaque); the C02 link 'parse(text) = denoted value' is tested here, proved elsewhere only for numbers/literals.",
+        rule="request = token tree of one generated json! program; reply = the value the compiled program constructed. All programs non-trivial; distinct request lines; programs = number compiled and run",
+        strength="partial: full theorem on the macro model; rustc's expander trusted; tie by compiling generated programs each run",
+        trusted_base=COMMON_TRUST + ["rustc macro_rules! matcher"],
+        assumptions=["integer literals are rendered by Display of the integer; variables used as keys are &str bindings"],
+        timeout=3600,
+    ),
 }
